@@ -171,7 +171,7 @@ def cmap_subtable(draw, fmt, nglyphs, *, plat=None, big=False):
             # > 64k entries: a few long runs
             segs = []
             cp = draw(st.sampled_from([0x20, 0x4E00, 0x10000, 0x20000]))
-            for _ in range(draw(st.integers(3, 4))):
+            for _ in range(draw(st.integers(4, 5))):
                 n = draw(st.integers(20000, 30000))
                 if fmt == 12:
                     g0 = draw(st.integers(1, maxgid - n + 1))
@@ -1046,6 +1046,8 @@ def var_specs(draw):
 _F214 = st.sampled_from([0.0, 1.0, 0.5, -0.5, 0.25, 1.5, -1.0, 1 / 16384, 0.75])
 _FIXED = st.one_of(st.sampled_from([0.0, 1.0, -1.0, 0.5, 2.0, 100.25, -3.5]), st.integers(-500, 500).map(float))
 _FW = st.integers(-1000, 1000)
+# angles are in degrees, stored as F2Dot14 fractions of a half circle
+_ANGLE = st.sampled_from([0.0, 90.0, -90.0, 45.0, 180.0, -360.0, 359.989013671875, 0.010986328125, 1.5, -33.3])
 
 
 @st.composite
@@ -1086,9 +1088,9 @@ def paint(draw, nglyphs, depth, colr_glyphs):
     if k == "scale-uniform":
         return {"Format": 20, "Paint": sub(), "scale": draw(_F214)}
     if k == "rotate":
-        return {"Format": 24, "Paint": sub(), "angle": draw(_F214)}
+        return {"Format": 24, "Paint": sub(), "angle": draw(_ANGLE)}
     if k == "skew":
-        return {"Format": 28, "Paint": sub(), "xSkewAngle": draw(_F214), "ySkewAngle": draw(_F214)}
+        return {"Format": 28, "Paint": sub(), "xSkewAngle": draw(_ANGLE), "ySkewAngle": draw(_ANGLE)}
     if k == "composite":
         return {"Format": 32, "SourcePaint": sub(), "CompositeMode": draw(st.sampled_from(["src_over", "multiply", "xor", "clear", "hsl_luminosity"])), "BackdropPaint": sub()}
     # layers: at least two, none of them a PaintColrLayers itself (the unbuilder flattens nested layer lists)
